@@ -51,6 +51,32 @@ def _covers_baseline():
     return _COVERS[0]
 
 
+def mutation_self_test(pid, limit=12):
+    """thorough tier: the catalogue mutants tagged with this property (mutants/catalog.py) are applied to scratch copies of the
+    current tree and the contracts of the mutated file are re-verified.  Informational: it measures how discriminating the
+    obligations are; it says nothing about /repo and never changes the exit code."""
+    rec = dict(name=f"selftest::{pid}", kind="mutation self-test of the obligations (scratch copies; tools/muttest.py)",
+               bound=f"at most {limit} catalogue mutants tagged {pid}", status="ok", known=[])
+    try:
+        sys.path.insert(0, os.path.join(VERIF, "mutants"))
+        import catalog
+        ids = [m["id"] for m in catalog.M if pid in m["props"]][:limit]
+        if not ids:
+            rec["summary"] = dict(cases=0, detail="no catalogue mutant is tagged with this property")
+            return rec
+        p = subprocess.run(["python3-vt", os.path.join(VERIF, "tools", "muttest.py")] + ids, capture_output=True, text=True,
+                           timeout=7200, cwd=VERIF, env=dict(os.environ, PYVC_NO_BATTERY="1"))
+        rows = [ln.split(None, 2) for ln in p.stdout.splitlines() if ln and not ln[0].isdigit() and len(ln.split()) >= 2]
+        verdicts = {}
+        for r_ in rows:
+            verdicts[r_[1]] = verdicts.get(r_[1], 0) + 1
+        rec["summary"] = dict(cases=len(rows), nontrivial=sum(v for k, v in verdicts.items() if k.startswith("caught")), verdicts=verdicts,
+                              samples=[" ".join(r_)[:200] for r_ in rows][:12])
+    except Exception as e:          # the self-test is a bonus: its failure is recorded, nothing else
+        rec["summary"] = dict(cases=0, detail=f"self-test did not run: {type(e).__name__}: {e}")
+    return rec
+
+
 def canaries_of(pid):
     return sorted(q for q, con in spec.CONTRACTS.items() if "#canary" in q and (pid in con.tags or "ALL" in con.tags))
 
@@ -167,6 +193,8 @@ def main(argv=None):
     out_lines = []
     # side checks registered for the property (bounded stand-ins, effect scans, ...)
     side = properties.run_side_checks(pid, tier, seed) if hasattr(properties, "run_side_checks") else []
+    if tier == "thorough" and os.environ.get("PYVC_NO_SELFTEST") != "1":
+        side.append(mutation_self_test(pid))
     for s_ in side:
         if s_["status"] == "violation":
             new_fail.append(s_["name"])
